@@ -61,6 +61,7 @@ class Prog:
         self.branches = []  # list of dict(named=bool, mut=bool, steps=[[Act]])
         self.handler = None  # (id, pos)
         self.joiner = "None"
+        self.handler_block = False
         self.tags = []
         self.next_id = 1
 
@@ -129,7 +130,7 @@ def render_body(p, kind, hk):
         s += " ".join(steps)
         parts.append(s)
     if p.handler and hk:
-        hid, pos = p.handler
+        hid, pos = p.handler[0], p.handler[1]
         n = len(p.branches)
         ty = "Rv" if hk == "then" else "Val"
         params = ", ".join("a%d: %s" % (i, ty) for i in range(n))
@@ -138,7 +139,11 @@ def render_body(p, kind, hk):
             body = {"map": "hv", "and_then": "hra", "then": "hva"}[hk]
         else:
             body = {"map": "hv", "and_then": "hr", "then": "hv"}[hk]
-        h = "%s => hmk(%d, |%s| %s(%d, &[%s]))" % (hk, hid, params, body, hid, args)
+        h = "hmk(%d, |%s| %s(%d, &[%s]))" % (hid, params, body, hid, args)
+        if p.handler_block:
+            # a handler may be any expression, also one spelled as a block
+            h = "{ %s }" % h
+        h = "%s => %s" % (hk, h)
         parts.insert(pos, h)
     opts = ""
     if p.joiner == "Stamp":
@@ -274,6 +279,7 @@ def gen_profile_prog(pid, profile, rng):
         p.tags.append("names")
     if rng.random() < 0.4:
         p.handler = (p.nid(), rng.randint(0, len(profile)))
+        p.handler_block = rng.random() < 0.5
         p.tags.append("handler")
     return p
 
@@ -311,6 +317,7 @@ def gen_rand_prog(pid, rng, max_branches=5, max_steps=4):
         p.tags.append("wrap")
     if rng.random() < 0.5:
         p.handler = (p.nid(), rng.randint(0, n))
+        p.handler_block = rng.random() < 0.5
         p.tags.append("handler")
     return p
 
